@@ -4,6 +4,7 @@ package main
 // atoms (go/cfg does not split && and ||), with alias-aware canonical access paths.
 
 import (
+	"golang.org/x/tools/go/cfg"
 	"go/ast"
 	"go/token"
 	"go/types"
@@ -23,6 +24,8 @@ type Atom struct {
 	TypeX ast.Expr
 	Types []ast.Expr
 	Fact  *Fact
+	// Expanded: a boolean variable whose defining condition is also present (decomposed)
+	Expanded bool
 }
 
 func fAnd(fs ...*Formula) *Formula { return &Formula{Op: 1, Sub: fs} }
@@ -180,7 +183,15 @@ func (fn *Func) expandBoolVars(f *Formula, depth int) *Formula {
 	case *ast.BinaryExpr, *ast.UnaryExpr:
 		ast.Inspect(d, func(n ast.Node) bool {
 			switch n := n.(type) {
-			case *ast.CallExpr, *ast.TypeAssertExpr, *ast.IndexExpr, *ast.FuncLit:
+			case *ast.CallExpr:
+				f := calleeOf(info, n)
+				thirdParty := f != nil && f.Pkg() != nil && !strings.HasPrefix(f.Pkg().Path(), modPath)
+				if !(f != nil && (pureMethods[f.Name()] || thirdParty)) && !isLenCall(info, n) {
+					if tv, ok := info.Types[n.Fun]; !ok || !tv.IsType() {
+						pure = false
+					}
+				}
+			case *ast.TypeAssertExpr, *ast.IndexExpr, *ast.FuncLit:
 				pure = false
 			case *ast.UnaryExpr:
 				if n.Op != token.NOT && n.Op != token.SUB {
@@ -201,7 +212,8 @@ func (fn *Func) expandBoolVars(f *Formula, depth int) *Formula {
 	if !pure {
 		return f
 	}
-	return fAnd(f, fn.expandBoolVars(decompose(def, a.Pol, a.Fact), depth-1))
+	mark := &Formula{Atom: &Atom{E: a.E, Pol: a.Pol, Fact: a.Fact, Expanded: true}}
+	return fAnd(mark, fn.expandBoolVars(decompose(def, a.Pol, a.Fact), depth-1))
 }
 
 func typeSwitchOperand(sw *ast.TypeSwitchStmt) ast.Expr {
@@ -511,4 +523,132 @@ func isCtyConst(info *types.Info, e ast.Expr, name string) bool {
 	}
 	o := info.ObjectOf(sel.Sel)
 	return o != nil && o.Pkg() != nil && strings.HasSuffix(o.Pkg().Path(), "go-cty/cty")
+}
+
+// HoldsOnAllPaths: path-sensitive version of GuardsAt(at).Holds(q). Every CFG path from the
+// function entry to `at` must cross, after its last assignment to the variables involved, an
+// edge whose condition (decomposed, with bool-variable expansion) establishes q. It accepts
+// the control-flow shapes that plain dominance cannot see, e.g.
+//     if a { if !b { return }; x = … }      // at the use: a→b on every path
+// Used as a fallback when the dominance-based test fails.
+func (fn *Func) HoldsOnAllPaths(at ast.Node, q func(*Atom) bool) bool {
+	g := fn.CFG()
+	start := fn.BlockOf(at)
+	if g == nil || start == nil {
+		return false
+	}
+	info := fn.Info()
+	preds := map[*cfg.Block][]*cfg.Block{}
+	for _, b := range g.Blocks {
+		for _, s := range b.Succs {
+			preds[s] = append(preds[s], b)
+		}
+	}
+	// the formula established by taking edge p -> s
+	edgeFormula := func(p, s *cfg.Block) *Formula {
+		if len(p.Succs) != 2 || p.Succs[0] == p.Succs[1] || len(p.Nodes) == 0 || p.Kind == cfg.KindRangeLoop {
+			return nil
+		}
+		cond, ok := p.Nodes[len(p.Nodes)-1].(ast.Expr)
+		if !ok {
+			return nil
+		}
+		if _, isCase := fn.Prog.parents[cond].(*ast.CaseClause); isCase {
+			return nil
+		}
+		pol := s == p.Succs[0]
+		return fn.expandBoolVars(decompose(cond, pol, nil), 2)
+	}
+	// objects assigned in a block (to invalidate atoms that mention them)
+	assignedIn := func(b *cfg.Block, upto ast.Node) map[types.Object]bool {
+		out := map[types.Object]bool{}
+		for _, n := range b.Nodes {
+			if upto != nil && n == upto {
+				break
+			}
+			ast.Inspect(n, func(z ast.Node) bool {
+				switch s := z.(type) {
+				case *ast.AssignStmt:
+					for _, l := range s.Lhs {
+						if o := baseObj(info, l); o != nil {
+							out[o] = true
+						}
+					}
+				case *ast.IncDecStmt:
+					if o := baseObj(info, s.X); o != nil {
+						out[o] = true
+					}
+				}
+				return true
+			})
+		}
+		return out
+	}
+	mentionsAny := func(a *Atom, dirty map[types.Object]bool) bool {
+		if a == nil || a.E == nil || len(dirty) == 0 {
+			return false
+		}
+		bad := false
+		ast.Inspect(a.E, func(z ast.Node) bool {
+			if id, ok := z.(*ast.Ident); ok && dirty[info.ObjectOf(id)] {
+				bad = true
+			}
+			return !bad
+		})
+		return bad
+	}
+	onPath := map[*cfg.Block]bool{}
+	memo := map[*cfg.Block]bool{}
+	var visit func(b *cfg.Block, dirty map[types.Object]bool, depth int) bool
+	visit = func(b *cfg.Block, dirty map[types.Object]bool, depth int) bool {
+		if depth > 200 {
+			return false
+		}
+		ps := preds[b]
+		if len(ps) == 0 || b.Index == 0 {
+			return false // reached the entry without the fact
+		}
+		if onPath[b] {
+			return true // a cycle: the path entered it from somewhere explored separately
+		}
+		if len(dirty) == 0 {
+			if v, ok := memo[b]; ok {
+				return v
+			}
+		}
+		onPath[b] = true
+		defer delete(onPath, b)
+		res := true
+		for _, p := range ps {
+			if !p.Live {
+				continue // dead code after a return/branch
+			}
+			okEdge := false
+			if f := edgeFormula(p, b); f != nil {
+				okEdge = f.Holds(func(a *Atom) bool { return !mentionsAny(a, dirty) && q(a) })
+			}
+			if okEdge {
+				continue
+			}
+			d2 := dirty
+			if as := assignedIn(p, nil); len(as) > 0 {
+				d2 = map[types.Object]bool{}
+				for k := range dirty {
+					d2[k] = true
+				}
+				for k := range as {
+					d2[k] = true
+				}
+			}
+			if !visit(p, d2, depth+1) {
+				res = false
+				break
+			}
+		}
+		if len(dirty) == 0 {
+			memo[b] = res
+		}
+		return res
+	}
+	return visit(start, assignedIn(start, fn.CFGNodeOf(at)), 0)
 }
